@@ -138,7 +138,7 @@ _CONT = {"negative", "abs", "positive", "add", "subtract", "multiply", "maximum"
          "var", "std", "diff"} | _MOVE
 # float reductions whose rounding depends on the association order
 _ORDER_SENSITIVE = {"sum", "prod", "mean", "var", "std", "cumulative_sum", "cumulative_prod", "matmul", "tensordot",
-                    "vecdot", "outer", "qr", "diff", "nansum", "nanmean"}
+                    "vecdot", "qr"}
 
 
 def _key_from_json(key):
@@ -406,7 +406,7 @@ class Program:
         out = []
         for i in self.outputs:
             f, v = self._flags[i], vals[i]
-            exact = (v.dtype.kind in "biu" and not f["os"]) or (not f["os"] and not f["f32"] and v.dtype.kind in "biu")
+            exact = v.dtype.kind in "biu" and not f["os"]
             out.append({"exact": bool(exact), "rtol": 2e-3 if f["f32"] else 1e-7, "scale": float(f["scale"]),
                         "unstable": bool(f["unstable"]), "order_sensitive": bool(f["os"])})
         return out
